@@ -11,7 +11,7 @@ from props import fam_map as F
 FIELDS = ['nx', 'ny', 'nz', 'mode', 'sx', 'sy', 'sz', 'mx', 'my', 'mz', 'mapc', 'mapr', 'maps', 'ispg']
 
 
-MANIFEST = {'technique': 'Coq proof (CCP4 set-up index bounds from exactly the checks the code makes, symmetry expansion in bounds for every table row, gzip growth loop terminates, MemoryStream never past the end; snapshot behaviour refuted with witnesses) + outcome-class differential check + sanitizer/timeout runs on corrupted and truncated files', 'text': 'Theorems (repaired code): for every header and data vector the re-indexing of setup() in every mode returns or throws and never indexes outside the grid, assuming only the tests the code itself makes; symmetrize_using_ops is in bounds for every table row on an accepted grid; the gzip buffer-growth loop finishes within `total` iterations with an exception or exactly `total` bytes; the MemoryStream cursor stays in [0, size] and every copied range is inside the buffer over arbitrary operation sequences. For ANY 20 prologue bytes of an MTZ file an accepted header offset converts to a word count and a byte position without leaving int64 (byte-level model Mtz/Data.v, compared with read_first_bytes of gemmi). The snapshot versions are refuted by vm_compute witnesses (zero sampling word -> remainder by zero, wrapped point counts, ISIZE = 0 non-termination, skip past the end, MTZ header offset 2^62+21). Outcome class (OK/EXC) of gemmi vs model for 14 header words x boundary values x modes x Ccp4<float>/<int8_t>; truncation at every offset through memory/file/gzip; random multi-word corruption (ASan+UBSan build and a UBSan+RLIMIT_AS build with per-case alarm). MTZ: valid merged / unmerged-with-batch-headers / sample / empty files written by gemmi, every integer field of the text header set to boundary values, totals and their parts changed consistently, prologue words, truncation, random record corruption, with and without data, through memory / file / gzip, under ASan+UBSan with alarm: OK|EXC required. Beyond its first 20 bytes the MTZ reader is NOT modelled here (sanitizer runs only; the header-record parsers are modelled for C08).', 'note': 'Trusted: Coq kernel; extraction; harness; sanitizers. No axioms. zlib, allocation failure and real pointer overflow are outside the model.'}
+MANIFEST = {'technique': 'Coq proof (CCP4 set-up index bounds from exactly the checks the code makes, symmetry expansion in bounds for every table row, gzip growth loop terminates, MemoryStream never past the end; snapshot behaviour refuted with witnesses) + outcome-class differential check + sanitizer/timeout runs on corrupted and truncated files', 'text': 'Theorems (repaired code): THE WHOLE OF Ccp4::setup() - re-indexing and, in Full mode, the symmetry expansion - returns or throws for every header (any space-group number and sampling), grid, default value and mode: the compatibility test (check_grid_factors) that the repaired code makes before the expansion is exactly the hypothesis the expansion theorem needs (C03_ccp4_setup_whole_in_bounds; the behaviour without that test is refuted by the header P 4/n, one stored point, sampling 3 x 1 x 1); for every header and data vector the re-indexing of setup() in every mode returns or throws and never indexes outside the grid, assuming only the tests the code itself makes; symmetrize_using_ops is in bounds for every table row on an accepted grid; the gzip buffer-growth loop finishes within `total` iterations with an exception or exactly `total` bytes; the MemoryStream cursor stays in [0, size] and every copied range is inside the buffer over arbitrary operation sequences. For ANY 20 prologue bytes of an MTZ file an accepted header offset converts to a word count and a byte position without leaving int64 (byte-level model Mtz/Data.v, compared with read_first_bytes of gemmi). The snapshot versions are refuted by vm_compute witnesses (zero sampling word -> remainder by zero, wrapped point counts, ISIZE = 0 non-termination, skip past the end, MTZ header offset 2^62+21). Outcome class (OK/EXC) of gemmi vs model for 14 header words x boundary values x modes x Ccp4<float>/<int8_t>; truncation at every offset through memory/file/gzip; random multi-word corruption (ASan+UBSan build and a UBSan+RLIMIT_AS build with per-case alarm). MTZ: valid merged / unmerged-with-batch-headers / sample / empty files written by gemmi, every integer field of the text header set to boundary values, totals and their parts changed consistently, prologue words, truncation, random record corruption, with and without data, through memory / file / gzip, under ASan+UBSan with alarm: OK|EXC required. Beyond its first 20 bytes the MTZ reader is NOT modelled here (sanitizer runs only; the header-record parsers are modelled for C08).', 'note': 'Trusted: Coq kernel; extraction; harness; sanitizers. No axioms. zlib, allocation failure and real pointer overflow are outside the model.'}
 
 def setup_line(T, f, swap, smode, dflt, seed):
     return 'setup\t%s %s %d %d %d %d' % (T, ' '.join(str(f[k]) for k in FIELDS), swap, smode, dflt, seed)
